@@ -1,0 +1,289 @@
+//! Read-only verification hooks, compiled only with `--cfg hashbrown_verif`.
+//!
+//! Nothing in this module changes the behaviour of the crate: it exposes a
+//! dump of the internal table state and thin wrappers around private pure
+//! functions so that an external harness can compare them with a model.
+
+use super::*;
+use crate::alloc::vec::Vec;
+
+/// Group width of the control-byte scanner selected at compile time.
+pub const GROUP_WIDTH: usize = Group::WIDTH;
+
+/// Snapshot of the internal state of a raw table.
+#[derive(Clone, Debug, PartialEq, Eq)]
+pub struct Dump {
+    /// `buckets - 1`
+    pub bucket_mask: usize,
+    /// number of stored elements
+    pub items: usize,
+    /// insertions into never-used slots still allowed before a rehash
+    pub growth_left: usize,
+    /// the `buckets + GROUP_WIDTH` control bytes
+    pub ctrl: Vec<u8>,
+}
+
+impl<T, A: Allocator> RawTable<T, A> {
+    /// Dumps counters and control bytes.
+    pub fn verif_dump(&self) -> Dump {
+        let n = self.table.bucket_mask + 1 + Group::WIDTH;
+        let mut ctrl = Vec::with_capacity(n);
+        for i in 0..n {
+            // `Tag` is `repr(transparent)` over `u8`.
+            ctrl.push(unsafe { *(self.table.ctrl.as_ptr().add(i) as *const u8) });
+        }
+        Dump {
+            bucket_mask: self.table.bucket_mask,
+            items: self.table.items,
+            growth_left: self.table.growth_left,
+            ctrl,
+        }
+    }
+
+    /// Returns the element in bucket `i` if its control byte says FULL.
+    pub fn verif_bucket(&self, i: usize) -> Option<&T> {
+        if self.table.bucket_mask == 0 || i > self.table.bucket_mask {
+            return None;
+        }
+        unsafe {
+            let c = *(self.table.ctrl.as_ptr().add(i) as *const u8);
+            if c & 0x80 == 0 {
+                Some(self.bucket(i).as_ref())
+            } else {
+                None
+            }
+        }
+    }
+
+    /// Bucket index of the element that contains the address `p` (any
+    /// interior pointer of an element handed out by this table); `None` for
+    /// zero-sized elements, which have no distinct addresses.
+    pub fn verif_index_of(&self, p: *const u8) -> Option<usize> {
+        let size = mem::size_of::<T>();
+        if size == 0 {
+            return None;
+        }
+        let end = self.data_end().as_ptr() as usize;
+        let p = p as usize;
+        if p >= end {
+            return None;
+        }
+        Some((end - p - 1) / size)
+    }
+
+    /// Applies `RawIterRange::split` along `decisions` (pre-order; `0` = leaf,
+    /// `1` = split, `k >= 2` = yield `k - 1` elements first, then split) and
+    /// returns the bucket indices yielded by each leaf, left to right.
+    #[cfg(feature = "rayon")]
+    pub fn verif_split_leaves(&self, decisions: &[u8]) -> Vec<Vec<usize>> {
+        let mut out = Vec::new();
+        let mut pos = 0usize;
+        unsafe {
+            let it = self.iter();
+            self.verif_split_rec(it.iter, decisions, &mut pos, &mut out);
+        }
+        out
+    }
+
+    #[cfg(feature = "rayon")]
+    unsafe fn verif_split_rec(
+        &self,
+        mut range: RawIterRange<T>,
+        decisions: &[u8],
+        pos: &mut usize,
+        out: &mut Vec<Vec<usize>>,
+    ) {
+        let d = if *pos < decisions.len() {
+            decisions[*pos]
+        } else {
+            0
+        };
+        *pos += 1;
+        let mut leaf = Vec::new();
+        if d >= 2 {
+            for _ in 0..(d - 1) {
+                match range.next() {
+                    Some(b) => leaf.push(self.bucket_index(&b)),
+                    None => break,
+                }
+            }
+        }
+        if d == 0 {
+            for b in range {
+                leaf.push(self.bucket_index(&b));
+            }
+            out.push(leaf);
+            return;
+        }
+        let (left, right) = range.split();
+        match right {
+            None => {
+                for b in left {
+                    leaf.push(self.bucket_index(&b));
+                }
+                out.push(leaf);
+            }
+            Some(right) => {
+                if !leaf.is_empty() {
+                    out.push(leaf);
+                }
+                self.verif_split_rec(left, decisions, pos, out);
+                self.verif_split_rec(right, decisions, pos, out);
+            }
+        }
+    }
+}
+
+impl<K, V, S, A: Allocator> crate::HashMap<K, V, S, A> {
+    /// See [`RawTable::verif_dump`].
+    pub fn verif_dump(&self) -> Dump {
+        self.table.verif_dump()
+    }
+    /// See [`RawTable::verif_bucket`].
+    pub fn verif_bucket(&self, i: usize) -> Option<(&K, &V)> {
+        self.table.verif_bucket(i).map(|kv| (&kv.0, &kv.1))
+    }
+    /// Bucket index of the entry containing the address `p`.
+    pub fn verif_index_of(&self, p: *const u8) -> Option<usize> {
+        self.table.verif_index_of(p)
+    }
+    /// Applies the split driver to the underlying table.
+    #[cfg(feature = "rayon")]
+    pub fn verif_split_leaves(&self, decisions: &[u8]) -> Vec<Vec<usize>> {
+        self.table.verif_split_leaves(decisions)
+    }
+}
+
+impl<T, S, A: Allocator> crate::HashSet<T, S, A> {
+    /// See [`RawTable::verif_dump`].
+    pub fn verif_dump(&self) -> Dump {
+        self.map.table.verif_dump()
+    }
+    /// See [`RawTable::verif_bucket`].
+    pub fn verif_bucket(&self, i: usize) -> Option<&T> {
+        self.map.table.verif_bucket(i).map(|kv| &kv.0)
+    }
+    /// Bucket index of the element containing the address `p`.
+    pub fn verif_index_of(&self, p: *const u8) -> Option<usize> {
+        self.map.table.verif_index_of(p)
+    }
+}
+
+impl<T, A: Allocator> crate::HashTable<T, A> {
+    /// See [`RawTable::verif_dump`].
+    pub fn verif_dump(&self) -> Dump {
+        self.raw.verif_dump()
+    }
+    /// See [`RawTable::verif_bucket`].
+    pub fn verif_bucket(&self, i: usize) -> Option<&T> {
+        self.raw.verif_bucket(i)
+    }
+    /// Bucket index of the element containing the address `p`.
+    pub fn verif_index_of(&self, p: *const u8) -> Option<usize> {
+        self.raw.verif_index_of(p)
+    }
+    /// Applies the split driver to the underlying table.
+    #[cfg(feature = "rayon")]
+    pub fn verif_split_leaves(&self, decisions: &[u8]) -> Vec<Vec<usize>> {
+        self.raw.verif_split_leaves(decisions)
+    }
+}
+
+/// `capacity_to_buckets` for an element of `size` bytes and control alignment `ctrl_align`.
+pub fn capacity_to_buckets(cap: usize, size: usize, ctrl_align: usize) -> Option<usize> {
+    super::capacity_to_buckets(cap, TableLayout { size, ctrl_align })
+}
+
+/// `bucket_mask_to_capacity`.
+pub fn bucket_mask_to_capacity(bucket_mask: usize) -> usize {
+    super::bucket_mask_to_capacity(bucket_mask)
+}
+
+/// `TableLayout::new::<T>()` as `(size, ctrl_align)`.
+pub fn table_layout<T>() -> (usize, usize) {
+    let l = TableLayout::new::<T>();
+    (l.size, l.ctrl_align)
+}
+
+/// `TableLayout::calculate_layout_for` as `(layout size, layout align, ctrl_offset)`.
+pub fn calculate_layout_for(
+    size: usize,
+    ctrl_align: usize,
+    buckets: usize,
+) -> Option<(usize, usize, usize)> {
+    TableLayout { size, ctrl_align }
+        .calculate_layout_for(buckets)
+        .map(|(l, off)| (l.size(), l.align(), off))
+}
+
+/// The first `n` group positions probed for `hash` in a table with `bucket_mask`.
+pub fn probe_positions(bucket_mask: usize, hash: u64, n: usize) -> Vec<usize> {
+    let mut seq = ProbeSeq {
+        pos: h1(hash) & bucket_mask,
+        stride: 0,
+    };
+    let mut v = Vec::with_capacity(n);
+    for i in 0..n {
+        v.push(seq.pos);
+        if i + 1 < n {
+            seq.move_next(bucket_mask);
+        }
+    }
+    v
+}
+
+/// `Tag::full(hash)` as a byte.
+pub fn tag_full(hash: u64) -> u8 {
+    let t = Tag::full(hash);
+    unsafe { mem::transmute::<Tag, u8>(t) }
+}
+
+/// Result of one scanner primitive on a group of control bytes.
+#[derive(Clone, Debug, PartialEq, Eq)]
+pub struct MaskInfo {
+    /// byte positions reported by iterating the mask
+    pub bits: Vec<usize>,
+    /// `any_bit_set`
+    pub any: bool,
+    /// `lowest_set_bit`
+    pub lowest: Option<usize>,
+    /// `trailing_zeros`
+    pub trailing_zeros: usize,
+    /// `leading_zeros`
+    pub leading_zeros: usize,
+}
+
+/// Runs one scanner primitive on the first `GROUP_WIDTH` bytes of `bytes`.
+/// `op`: 0 = `match_tag(tag)`, 1 = `match_empty`, 2 = `match_empty_or_deleted`,
+/// 3 = `match_full`.
+pub fn group_match(bytes: &[u8], op: u8, tag: u8) -> MaskInfo {
+    assert!(bytes.len() >= Group::WIDTH);
+    let g = unsafe { Group::load(bytes.as_ptr() as *const Tag) };
+    let m = match op {
+        0 => g.match_tag(unsafe { mem::transmute::<u8, Tag>(tag) }),
+        1 => g.match_empty(),
+        2 => g.match_empty_or_deleted(),
+        _ => g.match_full(),
+    };
+    MaskInfo {
+        bits: m.into_iter().collect(),
+        any: m.any_bit_set(),
+        lowest: m.lowest_set_bit(),
+        trailing_zeros: m.trailing_zeros(),
+        leading_zeros: m.leading_zeros(),
+    }
+}
+
+/// `convert_special_to_empty_and_full_to_deleted` on the first `GROUP_WIDTH` bytes.
+pub fn group_convert(bytes: &[u8]) -> Vec<u8> {
+    assert!(bytes.len() >= Group::WIDTH);
+    #[repr(align(16))]
+    struct Aligned([u8; 16]);
+    let mut buf = Aligned([0u8; 16]);
+    unsafe {
+        let g = Group::load(bytes.as_ptr() as *const Tag);
+        g.convert_special_to_empty_and_full_to_deleted()
+            .store_aligned(buf.0.as_mut_ptr() as *mut Tag);
+    }
+    buf.0[..Group::WIDTH].to_vec()
+}
